@@ -97,6 +97,8 @@ func tokValue(label string) any {
 		return "héllo→日本"
 	case "map-slash": // a map whose only key is "/": the shape DAG-JSON reserves for links and bytes
 		return map[string]any{"/": "not-a-cid"}
+	case "map-slash-bytes": // the same for the bytes form, nested one level down
+		return map[string]any{"blob": map[string]any{"/": map[string]any{"bytes": "aGVsbG8"}}, "parent": map[string]any{"/": cidPool[41].String()}}
 	case "str-latin1": // a Go string that is not valid UTF-8 (legacy-encoded text): constructors accept any Go string
 		return "caf\xe9 \xff"
 	case "str-repl": // well-formed text that contains the replacement character itself (what lossy conversions turn broken bytes into)
